@@ -384,7 +384,7 @@ def grid_bnd():
                 out.append({'k': 'bnd', 'fn': 'tsat', 'p': pb * (1 + s * o)})
     out.append({'k': 'bnd', 'fn': 'tsat', 't': TMIN, 'p': 'sat'})
     out += [{'k': 'bnd', 'fn': 'sat', 't': t} for t in (-10.0, 0.0, 100.0, 374.0, 374.2, 400.0, 499.0, 501.0, 700.0)]
-    out += [{'k': 'bnd', 'fn': 'tsat', 'p': p} for p in (1.0, 600.0, 1e5, 22.0e6, 22.1e6, 22.2e6, 5e7)]
+    out += [{'k': 'bnd', 'fn': 'tsat', 'p': p} for p in (1.0, 600.0, 1e5, 22.0e6, 22.1e6, 22.2e6, 5e7, 0.0, -0.0, -1.0, -1e5, 5e-324)]
     for fn, thi in (('cowat', T13), ('supst', TMAX)):
         ts = [TMIN, 50.0, 200.0, 300.0, thi] + ([T13, 360.0, 370.0, TC67, 374.2, 450.0, T23, 600.0] if fn == 'supst' else [349.0])
         for t in ts:
@@ -608,7 +608,13 @@ def case_bnd(R, T, I, case):
         flat, curved = limit_distance('sat', t, 0)
         args, state = (t,), 't=%r' % t
     elif fn == 'tsat':
-        if not p > 0: R.label('out-of-domain'); return
+        if not p > 0:
+            # zero and negative pressures are outside every stated range: with range checking on, no value (and no exception)
+            R.label('bnd:tsat:non-positive-pressure')
+            with R.lib('tsat'):
+                v = T.tsat(p, bounds=True)
+            R.check(v is None, 'bounds:tsat:value-outside', 'tsat(%r, bounds=True) = %r although the pressure is outside the documented range' % (p, v))
+            return
         if not exact: inside = in_tsat(p)
         flat, curved = limit_distance('tsat', 0, p)
         args, state = (p,), 'p=%r' % p
